@@ -339,6 +339,16 @@ func (p *Program) SrcFuncs() []*ssa.Function {
 		}
 		for fn := range ssautil.AllFunctions(p.SSA) {
 			if IsModuleFunc(fn) && fn.Synthetic == "" {
+				// with test files loaded a package exists twice (p and "p [p.test]"): one copy of its functions
+				root := fn
+				for root.Parent() != nil {
+					root = root.Parent()
+				}
+				if root.Pkg != nil {
+					if canon := p.SSAPkgs[root.Pkg.Pkg.Path()]; canon != nil && canon != root.Pkg {
+						continue
+					}
+				}
 				add(fn)
 			}
 		}
